@@ -113,7 +113,7 @@ func Defects(t M) []Mutation {
 			for _, pm := range []string{"rwx", "x", "rw m", "RW", "rwmr x"} {
 				add("devnode-permissions-bad@"+pl, dp.With("permissions"), "set", pm, inv)
 			}
-			for _, pm := range []string{"r", "mwr", "rr", ""} {
+			for _, pm := range []string{"r", "mwr", "rr", "", "rwmr", "mmmmmm", "rwmrwmrwm"} {
 				add("devnode-permissions-good@"+pl, dp.With("permissions"), "set", pm, val)
 			}
 			add("devnode-null-entry@"+pl, dp, "set", nil, inv)
